@@ -487,4 +487,131 @@ theorem runFlat_flowRows {res : Resolve} :
         intro x _
         simp [ignoredBy, ignoresName, hk]
 
+/-! ### the data-sheet registry -/
+
+/-- the data operation a `data_sheet` row of the index stands for (no `operation` column here) -/
+def dataOpOf (r : IndexRow) : DataOps.Op :=
+  { sources := r.sheetNames, newName := r.newName, kind := .none }
+
+/-- the C11 chain contained in a history: its `data_sheet` rows, in order -/
+def dataOpsOf (rows : List IndexRow) : List DataOps.Op :=
+  (rows.filter (fun r => kindOf r.ty = .dataSheet)).map dataOpOf
+
+theorem step_data {res : Resolve} {st st' : St} {r : IndexRow} (h : step res st r = .ok st') :
+    (kindOf r.ty = .dataSheet →
+      DataOps.processDataSheet (dataEnv res) st.data (dataOpOf r) = .ok st'.data) ∧
+    (kindOf r.ty ≠ .dataSheet → st'.data = st.data) := by
+  unfold step at h
+  cases hk : kindOf r.ty with
+  | dataSheet =>
+    simp only [hk] at h
+    refine ⟨fun _ => ?_, fun hne => absurd rfl hne⟩
+    split at h
+    · rename_i d hd
+      simp only [pure, Except.pure, Except.ok.injEq] at h
+      subst h
+      exact hd
+    · simp [throw, throwThe, MonadExceptOf.throw] at h
+  | templateDefinition =>
+    simp only [hk] at h
+    refine ⟨fun hc => (by cases hc), fun _ => ?_⟩
+    unfold addTemplate firstName at h
+    cases hs : r.sheetNames with
+    | nil => simp [hs, bind, Except.bind, throw, throwThe, MonadExceptOf.throw] at h
+    | cons n tl =>
+      simp only [hs, bind, Except.bind, pure, Except.pure, Bool.not_true, Bool.and_false,
+        Bool.false_eq_true, if_false] at h
+      unfold resolveOrDie at h
+      cases hr : res n with
+      | none => simp [hr, throw, throwThe, MonadExceptOf.throw] at h
+      | some sh =>
+        simp only [hr, pure, Except.pure, Except.ok.injEq] at h
+        subst h
+        rfl
+  | createFlow =>
+    simp only [hk, pure, Except.pure, Except.ok.injEq] at h
+    subst h
+    exact ⟨fun hc => (by cases hc), fun _ => rfl⟩
+  | createCampaign =>
+    simp only [hk] at h
+    refine ⟨fun hc => (by cases hc), fun _ => ?_⟩
+    unfold firstName at h
+    cases hs : r.sheetNames with
+    | nil => simp [hs, bind, Except.bind, throw, throwThe, MonadExceptOf.throw] at h
+    | cons n tl =>
+      simp only [hs, bind, Except.bind, pure, Except.pure] at h
+      unfold resolveOrDie at h
+      cases hr : res n with
+      | none => simp [hr, throw, throwThe, MonadExceptOf.throw] at h
+      | some sh =>
+        simp only [hr, pure, Except.pure, Except.ok.injEq] at h
+        subst h
+        rfl
+  | createTriggers =>
+    simp only [hk] at h
+    refine ⟨fun hc => (by cases hc), fun _ => ?_⟩
+    unfold firstName at h
+    cases hs : r.sheetNames with
+    | nil => simp [hs, bind, Except.bind, throw, throwThe, MonadExceptOf.throw] at h
+    | cons n tl =>
+      simp only [hs, bind, Except.bind, pure, Except.pure] at h
+      unfold resolveOrDie at h
+      cases hr : res n with
+      | none => simp [hr, throw, throwThe, MonadExceptOf.throw] at h
+      | some sh =>
+        simp only [hr, pure, Except.pure, Except.ok.injEq] at h
+        subst h
+        rfl
+  | ignoreRow =>
+    simp only [hk] at h
+    refine ⟨fun hc => (by cases hc), fun _ => ?_⟩
+    unfold firstName at h
+    cases hs : r.sheetNames with
+    | nil => simp [hs, bind, Except.bind, throw, throwThe, MonadExceptOf.throw] at h
+    | cons n tl =>
+      simp only [hs, bind, Except.bind, pure, Except.pure] at h
+      unfold ignoreRow at h
+      cases hd : dropFlowRows n st.flowRows with
+      | error e => simp [hd, bind, Except.bind] at h
+      | ok keep =>
+        simp only [hd, bind, Except.bind, pure, Except.pure, Except.ok.injEq] at h
+        subst h
+        rfl
+  | contentIndex =>
+    simp only [hk, pure, Except.pure, Except.ok.injEq] at h
+    subst h
+    exact ⟨fun hc => (by cases hc), fun _ => rfl⟩
+  | invalid =>
+    simp only [hk, pure, Except.pure, Except.ok.injEq] at h
+    subst h
+    exact ⟨fun hc => (by cases hc), fun _ => rfl⟩
+
+theorem runFlat_data {res : Resolve} :
+    ∀ (rows : List IndexRow) {st out : St}, runFlat res st rows = .ok out →
+    DataOps.runOps (dataEnv res) st.data (dataOpsOf rows) = .ok out.data := by
+  intro rows
+  induction rows with
+  | nil =>
+    intro st out h
+    simp only [runFlat, foldlM_nil', Except.ok.injEq] at h
+    subst h
+    rfl
+  | cons r rows ih =>
+    intro st out h
+    rw [runFlat_cons] at h
+    cases hs : step res st r with
+    | error e => simp [hs, Except.bind] at h
+    | ok st1 =>
+      simp only [hs, Except.bind] at h
+      have := ih h
+      obtain ⟨d1, d2⟩ := step_data hs
+      by_cases hk : kindOf r.ty = .dataSheet
+      · simp only [dataOpsOf, List.filter_cons, hk, decide_true, if_true, List.map_cons,
+          DataOps.runOps]
+        rw [d1 hk]
+        exact this
+      · simp only [dataOpsOf, List.filter_cons, hk, decide_false, Bool.false_eq_true, if_false]
+        rw [← d2 hk]
+        exact this
+
 end Rpft.Index
